@@ -126,6 +126,26 @@ def build(prop, beh, idx, rng, crash_k=None):
                   {"op": "stmt", "c": "e1", "id": "e%d" % (nst + 1), "kind": "ins", "key": "i:79", "cols": {"a": "t:again"}, "wt": 995},
                   {"op": "rows", "c": "e1"}, {"op": "open", "c": fresh(), "mode": "ro"}, {"op": "bucket"}]
         feats.add("emptied")
+    elif "crash" not in feats and rng.random() < 0.35:
+        # a fork: two handles opened on the same version both commit, a third merges them; the cutoff of the vacuum lies
+        # between (or after) the creation times of the two branches: the forked version may be reclaimed only when EVERY
+        # successor was created at or before the cutoff
+        steps += [{"op": "open", "c": "a1", "mode": "rw", "perm": rng.randrange(6), "when": 910}]
+        save("a1")
+        steps += [{"op": "open", "c": "b1", "mode": "rw", "perm": rng.randrange(6), "when": 925}]
+        nst += 1
+        steps.append({"op": "stmt", "c": "a1", "id": "fa%d" % nst, "kind": "ins", "key": "i:81", "cols": {"a": "t:fa"}, "wt": 912})
+        save("a1")
+        steps.append({"op": "stmt", "c": "b1", "id": "fb%d" % nst, "kind": "ins", "key": "i:82", "cols": {"a": "t:fb"}, "wt": 927})
+        save("b1")
+        steps += [{"op": "open", "c": "m1", "mode": "rw", "perm": rng.randrange(6), "when": 960}, {"op": "rows", "c": "m1"},
+                  {"op": "reach", "tag": "before"}, {"op": "vacuum", "c": "m1", "cutoff": rng.choice([915, 915, 924, 925, 930])},
+                  {"op": "rows", "c": "m1", "same": "C09"}, {"op": "dump", "c": "m1", "tag": "vacdump"}, {"op": "reach", "tag": "after"},
+                  {"op": "open", "c": fresh(), "mode": "ro", "perm": rng.randrange(6)}]
+        for lab in saved[-4:]:
+            steps.append({"op": "kvdump", "c": fresh(), "only_ref": lab})
+        steps += [{"op": "vacuum", "c": "m1", "cutoff": 2000}, {"op": "rows", "c": "m1", "same": "C09"}, {"op": "reach"}, {"op": "bucket"}]
+        feats.add("fork")
     elif "crash" not in feats:
         for wv in writers:
             nst += 1
